@@ -51,7 +51,11 @@ def _observe(vec):
     o = {'_call': c, 'a': a, 'outcome': {'status': outcome['status'], 'exc': outcome.get('exc', ''), 'mro': outcome.get('mro', []),
                                         'msg': outcome.get('msg', '')},
          'matrix': mat, 'canon': {'status': 'none', 'matrix': []}, '_res': res, '_seq': seq}
+    # the canonical spelling of the same request, called the other way round: all parameters positionally in the documented order, or all
+    # by keyword with the omitted ones given as their documented default
     cc = concretise(a, canonical=True)
+    if all(k in symobs.SIGNATURES[cc['api']] for k in cc['kw']):
+        cc['conv'] = ('positional', 'explicit')[len(json.dumps(a, sort_keys=True)) % 2]
     if cc != c and outcome['status'] == 'ok':
         o2, r2, s2 = symobs.execute(cc, time_limit=60)
         o['canon'] = {'status': o2['status'], 'matrix': r2['matrix'] if r2 else ([s['matrix'] for s in s2] if s2 else [])}
